@@ -14,6 +14,7 @@ pub mod shutdown;
 pub mod health;
 pub mod web;
 pub mod richerr;
+pub mod reflect;
 
 /// Shared event recorder so that events survive a panic or hang of the run.
 #[derive(Clone, Default)]
@@ -53,6 +54,7 @@ fn run_one(lab: &str, stim: &Value, rec: &Rec) {
         "health" => health::run(stim, rec),
         "web" => web::run(stim, rec),
         "richerr" => richerr::run(stim, rec),
+        "reflect" => reflect::run(stim, rec),
         _ => { eprintln!("unknown lab {lab}"); std::process::exit(2) }
     }
 }
